@@ -174,11 +174,21 @@ def main():
 
         # ---------------- verdict lines
         import replaylib
+        # one replay per (obligation, scenario) -- run concurrently; harness failures: one line per distinct failing check
+        seen_v = set(); vv = []
         for r in violations:
-            path = replaylib.write_replay(pid, r, SRC)
-            verdict = replaylib.try_replay(pid, path, SRC, hreps)
+            key = (r["name"], r["path"].split("path")[0])
+            if key in seen_v: continue
+            seen_v.add(key); vv.append(r)
+        paths = [replaylib.write_replay(pid, r, SRC) for r in vv]
+        with ThreadPoolExecutor(max_workers=8) as ex:
+            verdicts = list(ex.map(lambda p_: replaylib.try_replay(pid, p_, SRC, hreps), paths))
+        for path, verdict in zip(paths, verdicts):
             lines.append(f"VIOLATION property={pid} replay={path}" + ("" if verdict == "confirmed" else " no-failing-input-found")); code = 1
+        seen_h = set()
         for fl in hviol:
+            if fl.get("check") in seen_h: continue
+            seen_h.add(fl.get("check"))
             path = replaylib.write_harness_replay(pid, fl, SRC)
             lines.append(f"VIOLATION property={pid} replay={path}"); code = 1
         for msg in meta_fail:
